@@ -46,6 +46,8 @@ type WTMsgOp struct {
 	Len    int    `json:"len"`
 	Path   string `json:"path"` // WriteMessage | NextWriter | ReadFrom | Prepared | WriteString
 	Chunks []int  `json:"chunks,omitempty"`
+	// ReadFrom only: the source returns its last bytes together with io.EOF (as io.Reader allows)
+	EOFWithData bool `json:"eofWithData,omitempty"`
 }
 
 type WTExp struct {
@@ -283,8 +285,10 @@ func (f *wtFam) writeOne(c *webtrans.Conn, m WTMsgOp, data []byte) error {
 		if !ok {
 			return fmt.Errorf("writer is not an io.ReaderFrom")
 		}
-		if _, err := rf.ReadFrom(&chunkReader{data: data, chunks: m.Chunks}); err != nil {
+		if n, err := rf.ReadFrom(&chunkReader{data: data, chunks: m.Chunks, eofWithData: m.EOFWithData}); err != nil {
 			return err
+		} else if n != int64(len(data)) {
+			return fmt.Errorf("ReadFrom reported %d bytes, the source supplied %d", n, len(data))
 		}
 		return wr.Close()
 	default: // NextWriter / WriteString fed with the chunking
@@ -320,9 +324,10 @@ func (f *wtFam) writeOne(c *webtrans.Conn, m WTMsgOp, data []byte) error {
 }
 
 type chunkReader struct {
-	data   []byte
-	chunks []int
-	k      int
+	data        []byte
+	chunks      []int
+	k           int
+	eofWithData bool
 }
 
 func (r *chunkReader) Read(b []byte) (int, error) {
@@ -341,6 +346,9 @@ func (r *chunkReader) Read(b []byte) (int, error) {
 	}
 	copy(b, r.data[:n])
 	r.data = r.data[n:]
+	if r.eofWithData && len(r.data) == 0 {
+		return n, io.EOF
+	}
 	return n, nil
 }
 
@@ -719,6 +727,9 @@ func GenWT(prop string, seed uint64, thorough bool) *Scenario {
 						m.Chunks[k] = 1
 					}
 				}
+			}
+			if m.Path == "ReadFrom" && g.p(0.4) {
+				m.EOFWithData = true
 			}
 			ws.Msgs = append(ws.Msgs, m)
 		}
